@@ -730,6 +730,16 @@ def annotate_fn(sf, item, blk, counts, meta, mode, qual_name, extra_ensures=None
                 soft_drift(str(e))
             continue
         n = body.count(old) + sig_text.count(old)
+        if n == 0 and re.search(r'\s', old):
+            # multi-line old text: match it modulo the amount of white space
+            rx = re.compile(r'\s+'.join(re.escape(t) for t in old.split()))
+            hits = rx.findall(body)
+            if hits:
+                body = rx.sub(lambda m_: new, body)
+                counts.bump(rule, len(hits))
+                if cnt not in (-1, len(hits)):
+                    soft_drift('%s: rewrite %s expects %d match(es) of %r, found %d' % (qual_name, rule, cnt, old, len(hits)))
+                continue
         if n != cnt and cnt != -1:
             soft_drift('%s: rewrite %s expects %d match(es) of %r, found %d' % (qual_name, rule, cnt, old, n))
         if n == 0 and cnt == -1:
